@@ -378,6 +378,7 @@ def install3(R: Registry):
                doc="blocking select on a logger's socket: returns (or blocks; liveness is out of scope)",
                ensures=[])
     R.contracts["select.select"].untyped = {"r", "w", "x", "t"}
+    R.contracts["select.select"].defaults = {"t": None}
 
     # ------------------------------------------------------------------ send_failed_message (C14)
     R.define("failed_payload_ok", "g: Int, dest: Module, h: MessageHeader",
@@ -762,21 +763,30 @@ def install9(R: Registry):
             if k == "none":
                 return z3.BoolVal(False)
             raise Exception(f"select over {v.t}")
-        closed = eng.heap_arr(st, "Socket", "closed", ("bool",))
         res = []
         for name in ("r", "w", "x"):
             mem = member(env[name])
+            v0 = env[name]
+            scls = "Socket"
+            if v0.t[0] == "list" and len(v0.t) > 1 and v0.t[1][0] == "ref":
+                scls = v0.t[1][1]
+            elif v0.t[0] == "dictview" and v0.z[1].t[1][0] == "ref":
+                scls = v0.z[1].t[1][1]
+            closed = eng.heap_arr(st, scls, "closed", ("bool",))
             if not z3.is_false(mem):
                 eng.oblige(st, f"{eng.func_key}/call:select.select/no_closed_socket[{name}]@{eng.rel(node)}", "requires@callsite",
                            z3.ForAll([x], z3.Implies(mem, z3.Not(z3.Select(closed, x)))), node, ("C03",),
                            "select.select raises ValueError when a closed socket is in one of its lists")
                 st.assume(z3.ForAll([x], z3.Implies(mem, z3.Not(z3.Select(closed, x)))))
-            L = eng.fresh(("list", ("ref", "Socket")), "sel_" + name)
+            L = eng.fresh(("list", ("ref", scls)), "sel_" + name)
             n, at = eng.list_len(L), eng.list_at(L)
             i, j = z3.Int(fresh_name("i")), z3.Int(fresh_name("j"))
             st.assume(n >= 0)
             if z3.is_false(mem):
                 st.assume(n == 0)
+            elif name == "w" and (env.get("t") is None or env["t"].t[0] == "none") and env["w"].t[0] == "list" and env["w"].z is not None:
+                # a blocking select (no timeout) on one writable-candidate returns only when it is ready
+                st.assume(n >= 1)
             else:
                 st.assume(z3.ForAll([i], z3.Implies(z3.And(0 <= i, i < n), z3.substitute(mem, (x, z3.Select(at, i)))), patterns=[z3.Select(at, i)]))
                 st.assume(z3.ForAll([i, j], z3.Implies(z3.And(0 <= i, i < j, j < n), z3.Select(at, i) != z3.Select(at, j))))
